@@ -92,13 +92,19 @@ def loggers():
     return [logging.getLogger(name) for name in existing]
 
 
+# control characters and line separators, client-controlled atoms (decoded
+# basic-auth user name, percent-decoded path) must not break the log line
+_UNSAFE_ATOM_CHARS = {c: "\\x%02x" % c for c in
+                      [*range(0x20), 0x7f, 0x85, 0x2028, 0x2029] if c != 0x09}
+
+
 class SafeAtoms(dict):
 
     def __init__(self, atoms):
         dict.__init__(self)
         for key, value in atoms.items():
             if isinstance(value, str):
-                self[key] = value.replace('"', '\\"')
+                self[key] = value.replace('"', '\\"').translate(_UNSAFE_ATOM_CHARS)
             else:
                 self[key] = value
 
